@@ -1,5 +1,5 @@
 INIT TInit
 NEXT TNext
-CONSTANTS Cells = {1} Algs = {0} Keys = {0} Counts = {0} Bearers = {0} Dirs = {0} Sym = {0} MaxLen = 0 Pats = {} MacVals = {} MaxPoints = 0 Nil = Nil WithNil = FALSE
+CONSTANTS Cells = {1} Algs = {0} Keys = {0} Counts = {0} Bearers = {0} Dirs = {0} Sym = {0} MaxLen = 0 Pats = {} MacVals = {} MaxPoints = 0 MaxRes = 1 MacTop = 255 Nil = Nil WithNil = FALSE
 CHECK_DEADLOCK FALSE
 POSTCONDITION Consumed
